@@ -27,7 +27,7 @@ import (
 
 func init() {
 	vf.Register(&vf.CheckDef{ID: "C19", Level: "fault_enumeration", Run: run,
-		Workers: map[string]vf.WorkerFunc{"crash": crashWorker, "fault": faultWorker}})
+		Workers: map[string]vf.WorkerFunc{"crash": crashWorker, "fault": faultWorker, "sched": schedWorker}})
 }
 
 // ---------------------------------------------------------------- strace log parsing
@@ -801,11 +801,12 @@ func keys(m map[string]*inode) []string {
 
 type faultCase struct {
 	name     string
-	prep     string // shell run before the snapshot of the "original" files
-	sh       string // shell; $MLR binary; cwd = scenario dir with f1.dkvp f2.dkvp f3.dkvp (3 records each) and f1.csv...
-	done     int    // number of leading files that must be fully transformed (others byte-identical to the original)
-	exitPath bool   // failure leaves through a library os.Exit (temp file hygiene reported separately)
-	anyExit  bool   // success is acceptable too (e.g. refusal cases that have nothing to do)
+	prep     string   // shell run before the snapshot of the "original" files
+	sh       string   // shell; $MLR binary; cwd = scenario dir with f1.dkvp f2.dkvp f3.dkvp (3 records each) and f1.csv...
+	done     int      // number of leading files that must be fully transformed (others byte-identical to the original)
+	exitPath bool     // failure leaves through a library os.Exit (temp file hygiene reported separately)
+	anyExit  bool     // success is acceptable too (e.g. refusal cases that have nothing to do)
+	files    []string // the files named on the command line, in order (default: derived from the case name)
 }
 
 func faultCases(quick bool) []faultCase {
@@ -831,6 +832,47 @@ func faultCases(quick bool) []faultCase {
 	}
 	for L := 0; L <= 9000; L += step {
 		out = append(out, faultCase{name: fmt.Sprintf("efbig:L=%d", L), sh: fmt.Sprintf(`trap "" XFSZ; prlimit --fsize=%d $MLR -I put '$z=1' big.dkvp f2.dkvp`, L), done: 0})
+	}
+	// a compressed input cut short at K/16 of its length (every reader; gzip by extension, zlib by extension, --gzin):
+	// the decompressor's error must fail the run, the damaged file and the healthy file after it stay as they are
+	kstep := 2
+	if quick {
+		kstep = 5
+	}
+	for _, f := range []struct{ name, conv, flags, ext string }{
+		{"dkvp", "--idkvp --odkvp", "", "dkvp"}, {"nidx", "--idkvp --onidx --ofs space", "--nidx --fs space", "nidx"}, {"tsv", "--idkvp --otsv", "--tsv", "tsv"},
+		{"csv", "--idkvp --ocsv", "--csv", "csv"}, {"csvlite", "--idkvp --ocsvlite", "--csvlite", "csvl"}, {"json", "--idkvp --ojson", "--json", "json"},
+		{"xtab", "--idkvp --oxtab", "--xtab", "xtab"}, {"pprint", "--idkvp --opprint", "--pprint", "pprint"}, {"markdown", "--idkvp --omd", "--imd --omd", "md"},
+	} {
+		for K := 1; K <= 15; K += kstep {
+			for _, comp := range []string{"gz", "z", "gzin"} {
+				if comp != "gz" && (f.name != "dkvp" && f.name != "csv" || K%2 == 0) {
+					continue
+				}
+				mk := `gzip -c big.X > full`
+				tname, extra := "t."+f.ext+".gz", ""
+				switch comp {
+				case "z":
+					mk = `python3 -c "import zlib,sys;sys.stdout.buffer.write(zlib.compress(open('big.X','rb').read()))" > full`
+					tname = "t." + f.ext + ".z"
+				case "gzin":
+					tname, extra = "t."+f.ext, "--gzin "
+				}
+				mk = strings.ReplaceAll(mk, "big.X", "big."+f.ext+"x")
+				prep := fmt.Sprintf(`$MLR %s cat big.dkvp > big.%sx && head -n 40 big.%sx > later.%s && %s && sz=$(stat -c %%s full) && head -c $((sz*%d/16)) full > %s && rm full big.%sx`, f.conv, f.ext, f.ext, f.ext, mk, K, tname, f.ext)
+				later := "later." + f.ext
+				sh := fmt.Sprintf(`$MLR -I %s%s put '$z=1' %s %s`, extra, f.flags, tname, later)
+				if comp == "gzin" {
+					sh = fmt.Sprintf(`$MLR -I %s%s put '$z=1' %s`, extra, f.flags, tname)
+					later = ""
+				}
+				fc := faultCase{name: fmt.Sprintf("truncated-%s:%s:K=%d", comp, f.name, K), prep: prep, sh: sh, done: 0, files: []string{tname}}
+				if later != "" {
+					fc.files = append(fc.files, later)
+				}
+				out = append(out, fc)
+			}
+		}
 	}
 	out = append(out,
 		faultCase{name: "rename-fails", sh: `strace -f -o /dev/null -e trace=renameat,rename,renameat2 -e inject=renameat,rename,renameat2:error=EXDEV $MLR -I put '$z=1' f1.dkvp f2.dkvp`, done: 0},
@@ -878,6 +920,7 @@ func faultWorker(w *vf.Worker) {
 		if fc.prep != "" {
 			pc := exec.Command("/bin/sh", "-c", fc.prep)
 			pc.Dir = dir
+			pc.Env = append(os.Environ(), "MLR="+mlr, "MLRRC=__none__")
 			if out, err := pc.CombinedOutput(); err != nil {
 				w.Broken("prep of %s failed: %v %s", fc.name, err, out)
 				os.RemoveAll(dir)
@@ -928,6 +971,8 @@ func faultWorker(w *vf.Worker) {
 		// file states
 		var named []string
 		switch {
+		case fc.files != nil:
+			named = fc.files
 		case strings.HasPrefix(fc.name, "csv-ragged"):
 			named = []string{"g1.csv", "g2.csv", "g3.csv"}
 		case strings.HasPrefix(fc.name, "efbig"):
@@ -1018,6 +1063,11 @@ func run(c *vf.Ctx) {
 	c.Assume("temp-file hygiene is asserted for failures reported through the normal error path only (as the property says); aborts through a library os.Exit (asserting_* etc.) do strand the temp file: counted in counters.temp_files_stranded_by_library_os_exit_paths, not flagged")
 	c.RunPool(vf.PoolSpec{Worker: "crash", Shards: 32, StallSecs: 600})
 	res := c.RunPool(vf.PoolSpec{Worker: "fault", Shards: 32, StallSecs: 600})
+	c.RunPool(vf.PoolSpec{Worker: "sched", Sched: true, Shards: len(schedConfigs(c.Quick())), StallSecs: 600,
+		CrashKey: func(idx uint64, label, kind, tail string) (string, string) {
+			return "inplace-sched-crash:" + label, fmt.Sprintf("worker %s while exploring the schedules of in-place %s: %s", kind, label, trunc(tail, 600))
+		}})
+	c.Assume("in-place mode under the scheduler: the -I driver (processFilesInPlace, exposed through an overlay-only export) runs in-process on real files in /dev/shm, two files of 3 and 5 records, batch sizes 1 and 2, failures at the first / middle / last record of either file through a returned DSL error, a verb's returned error, a library exit, a CSV writer schema change and a ragged CSV row; ALL schedules are enumerated and the directory is inspected after each")
 	c.TracesValidated = c.Counters["traces_validated"]
 	c.Extra["fault_kinds"] = vf.SortedSet(res, "fault-kinds")
 	c.Extra["scenarios_enumerated"] = len(scenarios(c.Quick()))
